@@ -2,6 +2,7 @@ import Pw.Model.Render
 import Pw.Spec.Errors
 import Pw.Spec.Cursor
 import Pw.Spec.Ext
+import Pw.Spec.Values
 import Pw.Model.Conc
 import Pw.Model.Heap
 /-
@@ -336,6 +337,53 @@ def oracleBind (c : CaseIn) (chunks : List Bytes) (rkv : KV) : Option String :=
   (chk "xx" gotX).orElse fun _ => (chk "xn" (",".intercalate notes)).orElse fun _ =>
   (chk "xtf" tf).orElse fun _ => (chk "xd" dr).orElse fun _ => chk "xt" pd
 
+/-- C09 oracle: decode every DataRow of the implementation's transcript as a client would
+    (type OIDs and format codes from the generator's description of the request, checked against
+    the RowDescription) and compare with the values the handler was told to write -/
+def oracleValues (c : CaseIn) (chunks : List Bytes) : Option String :=
+  let frames := implFrames chunks
+  let arg (k : String) : String := ((c.kv.lookup k).map fun v => (v.drop 1).toString).getD ""
+  let letters : List UInt8 := (arg "vcols").toList.map fun ch => UInt8.ofNat ch.toNat
+  let oids : List Nat := letters.filterMap Script.colOid
+  let fmts : List Nat := ((arg "vfmt").splitOn ",").filterMap (·.toNat?)
+  let rows : List (List (Option Val)) := (((arg "vrows").splitOn "|").filter (· ≠ "")).map fun r =>
+    ((r.splitOn ",").map fun tok => Script.parseVal (tok.toList.map fun ch => UInt8.ofNat ch.toNat))
+  let afterStart := (frames.dropWhile (·.1 ≠ ch 'Z')).drop 1
+  let ds := afterStart.filter (·.1 = ch 'D')
+  let tcheck : Option String := match afterStart.find? (·.1 = ch 'T') with
+    | none => some "C09:no-RowDescription"
+    | some (_, b) => match rd16 b with
+      | none => some "C09:bad-RowDescription"
+      | some (n, r) => match parseColDescs n r with
+        | none => some "C09:bad-RowDescription"
+        | some cols =>
+          if cols.map (·.1.oid) ≠ oids then some "C09:RowDescription-types"
+          else if cols.map (·.2) ≠ fmts then some ("C09:RowDescription-formats:" ++ toString (cols.map (·.2)))
+          else none
+  let rec cmpFields (i : Nat) (os fs : List Nat) (got : List (Option Bytes)) (want : List (Option Val)) (row : Nat) : Option String :=
+    match os, fs, got, want with
+    | [], [], [], [] => none
+    | o :: os', f :: fs', g :: got', w :: want' =>
+      let dec := Spec.clientDecode o f g
+      let exp := w.map Spec.normal
+      if exp.isNone then some ("C09:generator-value-unparsed:row=" ++ toString row ++ ":col=" ++ toString i)
+      else if dec = exp then cmpFields (i + 1) os' fs' got' want' row
+      else some ("C09:value:row=" ++ toString row ++ ":col=" ++ toString i ++ ":oid=" ++ toString o ++ ":fmt=" ++ toString f
+        ++ ":field=" ++ (match g with | some v => hexOf v | none => "NULL"))
+    | _, _, _, _ => some ("C09:field-count:row=" ++ toString row ++ ":fields=" ++ toString (i + got.length)
+        ++ ":columns=" ++ toString (i + os.length))
+  let rec cmpRows (k : Nat) (ds : List (UInt8 × Bytes)) (rows : List (List (Option Val))) : Option String :=
+    match ds, rows with
+    | [], [] => none
+    | (_, b) :: ds', r :: rows' =>
+      (match rd16 b with
+      | none => some ("C09:bad-DataRow:row=" ++ toString k)
+      | some (n, rest) => match parseFields n rest with
+        | none => some ("C09:bad-DataRow:row=" ++ toString k)
+        | some fs => (cmpFields 0 oids fmts fs r k).orElse fun _ => cmpRows (k + 1) ds' rows')
+    | _, _ => some ("C09:row-count:got=" ++ toString (k + ds.length) ++ ":want=" ++ toString (k + rows.length))
+  tcheck.orElse fun _ => cmpRows 0 ds rows
+
 /-- split a list at every element satisfying `p` (the separator closes its group) -/
 def splitAfter {α} (p : α → Bool) : List α → List (List α)
   | [] => []
@@ -610,6 +658,7 @@ def oracle (c : CaseIn) (chunks : List Bytes) (rkv : KV) : Option String :=
   else if c.camp = "accessor" then oracleAccessor c rkv
   else if c.camp = "bind" then oracleBind c chunks rkv
   else if c.camp = "simple" then oracleSimple c chunks rkv
+  else if c.camp = "values" then oracleValues c chunks
   else if c.camp = "ext" then oracleExt c chunks rkv
   else if c.camp = "auth" then oracleAuth c chunks rkv
   else if c.camp = "multi" then oracleMulti c rkv
